@@ -1,13 +1,81 @@
-"""C05 — Provenance query selects exactly the rows whose formula is true."""
+"""C05 - Provenance query selects exactly the rows whose formula is true."""
 import numpy as np
 import gen
 import spec
-from props.common import load_impl, make_prov, exc_name, rand_keys, rand_ckeys
+from props.common import (load_impl, make_prov, exc_name, rand_keys, rand_ckeys, rand_raw_data, raw_true, raw_to_exprs, raw_padding_kinds,
+                          raw_model_prov, make_raw_prov)
 
 RULE = ("random ragged DNF lists (rows 1-6, disjuncts 1-3, conjuncts 1-3, 2-3 candidates, value-0 literals, repeated units) "
         "x ALL assignments x encodings (int64 / int32 / uint8 / bool ndarray, int and bool list, dict with omitted units) x dtypes (bool, int); compared with the Lean model "
         "Ds.Prov.query/ofExprs and with a structural truth evaluation of the source expressions. Non-trivial = the container holds "
-        "padding (rows of different shapes) and some row's truth value varies over the assignments; distinct = distinct expression lists.")
+        "padding (rows of different shapes) and some row's truth value varies over the assignments; distinct = distinct expression lists. "
+        "Second stream (1 case in 4): containers given as RAW (rows, disjuncts, conjuncts, 2) data through Provenance(units=..., data=...) "
+        "(int64 / int32 ndarray, nested list, 3-D array for one disjunct) whose padding slots (-1,-1) stand anywhere - in front of, between and behind the "
+        "literals of a disjunct, whole disjuncts (in any position) and whole rows of padding - x ALL assignments x the same encodings; compared with "
+        "the truth value read off the slots by definition (a disjunct = conjunction of its non-padding literals, an all-padding disjunct "
+        "contributes nothing, a row without a real disjunct is false) and with Ds.Prov.query on the same raw container.")
+
+
+def raw_case(ctx, I, n_units, n_cands, data):
+    """a container handed over as raw 4-D data (padding slots in arbitrary positions)"""
+    rng = ctx.rng
+    keys, scheme = rand_keys(rng, n_units)
+    ckeys, cscheme = rand_ckeys(rng, n_cands)
+    forms = ["int64", "int64", "int32", "list"] + (["3d", "3d"] if len(data[0]) == 1 else [])
+    form = rng.choice(forms)
+    case = dict(nUnits=n_units, nCands=n_cands, rawData=data, form=form, unitKeys=[str(k) for k in keys], candidateKeys=[str(k) for k in ckeys])
+    kinds = raw_padding_kinds(data)
+    ctx.dist["built=raw 4-D data"] += 1
+    ctx.dist["raw_form=" + form] += 1
+    for k in kinds:
+        ctx.dist["raw_padding=" + k] += 1
+    asg = spec.assignments(n_units, n_cands)
+    spec_tab = [[raw_true(row, a) for row in data] for a in asg]
+    # the same truth values through the expression evaluator on the stripped formulas (two independent readings of the definition)
+    stripped = raw_to_exprs(data)
+    assert spec_tab == [[spec.expr_true(e, a) for e in stripped] for a in asg]
+    varies = any(len({row[i] for row in spec_tab}) > 1 for i in range(len(data)))
+    ctx.case(["raw", data], nontrivial=bool(kinds) and varies, sample=dict(nUnits=n_units, nCands=n_cands, rawData=data),
+             rows=len(data), cands=n_cands, ragged=bool(kinds))
+    ctx.maxi(units=n_units, rows=len(data), assignments=len(asg))
+    model = ctx.model({"op": "history", "prov": raw_model_prov(data, n_units, n_cands), "ops": [{"op": "table"}]})
+    model_tab = model["ok"][0] if model else None
+    try:
+        prov, _units = make_raw_prov(I, data, n_units, n_cands, keys=keys, ckeys=ckeys, form=form)
+        if prov.data.tolist() != data:
+            ctx.mismatch("the constructor did not store the raw data it was given", case, impl=prov.data.tolist(), spec=data)
+            return
+    except Exception as e:  # noqa
+        ctx.mismatch("Provenance(units=..., data=<raw array>) raised", case, impl=(exc_name(e), repr(e)), spec="accepted")
+        return
+    impl_tab = []
+    for k, a in enumerate(asg):
+        try:
+            m_arr = [bool(x) for x in np.asarray(prov.query(np.array(a, dtype=int))).tolist()]
+            m_list = [bool(x) for x in np.asarray(prov.query(list(a))).tolist()]
+            idx = np.asarray(prov.query(np.array(a, dtype=int), dtype=int)).reshape(-1).tolist()
+            d = {keys[u]: ckeys[a[u]] for u in range(n_units) if not (a[u] == 0 and (u + sum(a)) % 2 == 0)}
+            m_dict = [bool(x) for x in np.asarray(prov.query(d)).tolist()]
+            alt = {"int32 array": [bool(x) for x in np.asarray(prov.query(np.array(a, dtype=np.int32))).tolist()]}
+            if n_cands == 2:
+                alt["bool array"] = [bool(x) for x in np.asarray(prov.query(np.array(a, dtype=bool))).tolist()]
+        except Exception as e:  # noqa
+            ctx.mismatch("query raised", dict(case, assignment=a), impl=(exc_name(e), repr(e)), model=(model_tab[k] if model_tab else None), spec=spec_tab[k])
+            return
+        if any(v != m_arr for v in alt.values()) or not (m_arr == m_list == m_dict) or idx != [i for i, x in enumerate(m_arr) if x]:
+            ctx.mismatch("encodings/dtypes disagree", dict(case, assignment=a),
+                         impl=dict(array=m_arr, list=m_list, dict=m_dict, idx=idx, **alt), spec=spec_tab[k])
+            return
+        impl_tab.append(m_arr)
+    if impl_tab != spec_tab:
+        k = next(i for i in range(len(asg)) if impl_tab[i] != spec_tab[i])
+        ctx.mismatch("query != truth of the row formulas (raw container, padding slots in arbitrary positions)", dict(case, assignment=asg[k], formulas=stripped),
+                     impl=impl_tab[k], model=(model_tab[k] if model_tab else None), spec=spec_tab[k])
+    elif model_tab is not None and model_tab != impl_tab:
+        k = next(i for i in range(len(asg)) if impl_tab[i] != model_tab[i])
+        ctx.mismatch("model Ds.Prov.query disagrees with implementation on a raw container (implementation agrees with the definition)",
+                     dict(case, assignment=asg[k]), impl=impl_tab[k], model=model_tab[k], spec=spec_tab[k],
+                     failing_input=False, broken="corr:Ds.Prov.query / theorem C05_main")
 
 
 def one_case(ctx, I, n_units, n_cands, exprs):
@@ -92,7 +160,21 @@ def run(ctx):
     ]
     for n, c, ex in corpus:
         one_case(ctx, I, n, c, ex)
-    for _ in range(n_cases):
+    P_ = [-1, -1]
+    raw_corpus = [
+        # padding in front of a literal, behind it, a disjunct / a row of padding only, padding between two literals
+        (3, 2, [[[P_, [0, 1]], [P_, P_]], [[[1, 1], [2, 1]], [P_, [0, 0]]], [[[2, 1], P_], [P_, P_]], [[P_, P_], [P_, P_]]]),
+        (3, 2, [[[[0, 1], P_, [1, 1]]], [[P_, P_, [2, 0]]], [[P_, P_, P_]]]),
+        (2, 3, [[[P_], [[1, 2]]], [[[0, 1]], [P_]]]),
+    ]
+    for n, c, data in raw_corpus:
+        raw_case(ctx, I, n, c, data)
+    for it in range(n_cases):
+        if it % 4 == 3:
+            n_cands = 2 if rng.random() < 0.7 else 3
+            n_units = rng.randint(1, 4)
+            raw_case(ctx, I, n_units, n_cands, rand_raw_data(rng, n_units, n_cands))
+            continue
         n_units = rng.randint(1, 5 if ctx.tier == "quick" else 6)
         n_cands = 2 if rng.random() < 0.7 else 3
         if n_cands == 3:
